@@ -49,4 +49,18 @@ def joinedErrorsOld (fails : List Bool) (completed : List Nat) : List PErrItem :
     results) and are sorted with a comparison `le`. -/
 def collectSorted {α : Type} (le : α → α → Bool) (arrived : List α) : List α := arrived.mergeSort le
 
+/-- The shared diagnostics collector of one build / check call (the protocompile reporter of
+    `bufimage.BuildImage`, the annotation list of a check): concurrent producers append what they
+    find in ARRIVAL order, i.e. the schedule.  `cap = some n`: the collector stops after `n`
+    entries (a hypothetical `maxBuildErrors`); the code that exists collects everything
+    (`cap = none`). -/
+def collectCapped {α : Type} (cap : Option Nat) (arrived : List α) : List α :=
+  match cap with
+  | none => arrived
+  | some n => arrived.take n
+
+/-- What is printed: the sorted collection. -/
+def reportSorted {α : Type} (le : α → α → Bool) (cap : Option Nat) (arrived : List α) : List α :=
+  collectSorted le (collectCapped cap arrived)
+
 end BufModel.Parallel
